@@ -104,3 +104,28 @@ def replay_findings(rep, prop, ask_impl):
         else:
             rep.stats["finding-no-longer-reproduces:" + f["id"]] += 1
     return findings
+
+
+
+def combinator_pairs(P, exprs, built, seed, npairs, pool=None, singles=True):
+    """combinators over the built expressions: any([e]) for a sample and any([a, b]) for random pairs;
+    returns [(members, parsed `A` answer)] for those that build"""
+    import random
+    rng = random.Random(seed * 131 + 7)
+    pool = pool if pool is not None else built
+    groups = []
+    if singles:
+        groups += [[k] for k in rng.sample(built, min(len(built), npairs // 3))]
+    if pool:
+        groups += [[rng.choice(pool), rng.choice(built if rng.random() < 0.4 else pool)] for _ in range(npairs)]
+    ans = P.h.ask(["A %d %s" % (len(g), " ".join(hexs(exprs[k]) for k in g)) for g in groups])
+    out = []
+    for g, line in zip(groups, ans):
+        d = parse_impl_build(line)
+        if d["ok"]:
+            out.append(([exprs[k] for k in g], d))
+    return out
+
+
+def any_model(m, cmd, members_list):
+    return m.ask(["%s %d %s" % (cmd, len(ms), " ".join(hexs(e) for e in ms)) for ms in members_list])
